@@ -5,7 +5,7 @@ import "gosym/sym"
 func init() {
 	Register(&Spec{
 		ID:    "C15",
-		Level: "model_checking",
+		Level: "model_checking", CrossSolver: true,
 		Explanation: "bounded symbolic execution of ConvertImageToNRGBA/RGBA/RGBA64 against the real image/draw.Draw(Src) executed symbolically on the same source: for each concrete geometry and source type every byte of pixel storage (Pix, Y/Cb/Cr planes, palette entries) is a symbolic byte, so one path covers all pixel contents; output Pix, Stride and Rect are asserted equal (bit-vector equality per byte, e.g. color.YCbCrToRGB against YCbCr.RGBA()>>8 over all 2^24 triples), same-type inputs must come back as the same pointer, and the source storage must be unchanged. Data-dependent branches of the colour conversions are merged with ite-terms (function-level merging for image/color, block-level if-conversion elsewhere)",
 		Bounds: func(tier string) map[string]interface{} {
 			g := "3 geometries: 2x2 at origin, 1x2 at (-2,3), 2x1 sub-image of a 4x3 parent"
